@@ -65,7 +65,10 @@ class SpatialNetwork(Network):
         """(Grid) - Grid object describing the network's spatial embedding"""
 
         #  Call constructor of parent class Network
-        Network.__init__(self, adjacency=adjacency, edge_list=edge_list,
+        #  The grid fixes the number of nodes (an edge list alone would drop
+        #  trailing isolated nodes and fails when empty)
+        Network.__init__(self, adjacency=adjacency, n_nodes=grid.N,
+                         edge_list=edge_list,
                          directed=directed, silence_level=silence_level)
 
     def __cache_state__(self) -> Tuple[Hashable, ...]:
